@@ -137,13 +137,13 @@ def family(tier):
         # the pause since the recording began must not count into its recorded hold time
         ("taphold_held", make(["rec1", "stop", "play1"], {}, "recorded", 2, th=("c", 3, "a", "lsft")),
          dict(D=5, saves=1, maclen=2, held=2)),
-        # bursts (two unprocessed events) and typing while the replay runs
-        ("burst", make(["rec1", "play1"], A, "constant", 2), dict(D=0, saves=1, maclen=2, qmax=2, free_replay=True)),
         # control keys processed later than they arrive: bursts that include the record / stop keys
         ("late", make(["rec1", "stop", "play1"], A, "constant", 2), dict(D=0, saves=1, maclen=2 if big else 1, qmax=2, late=True)),
     ]
     if big:
         F += [
+            # bursts (two unprocessed events) and typing while the replay runs (quick: the `late` instance has the bursts)
+            ("burst", make(["rec1", "play1"], A, "constant", 2), dict(D=0, saves=1, maclen=2, qmax=2, free_replay=True)),
             ("trunc2", make(["rec1", "stopt2", "play1"], A, "recorded", 2), dict(D=1, saves=1, maclen=4)),
             ("nested_held", make(["rec1", "rec2", "play1", "play2"], A, "constant", 2), dict(D=0, saves=2, maclen=2, held=2)),
             ("stop_rec", make(["rec1", "stop", "play1"], A, "recorded", 1), dict(D=1, saves=2, maclen=3, held=1)),
